@@ -516,7 +516,8 @@ func account(c *mon.Case, cl call, res numcall.Result, viaSource bool) {
 
 func Spec() *mon.Spec {
 	return &mon.Spec{
-		ID: "C11", Level: "exploration",
+		ID:            "C11",
+		SpinViolation: true, Level: "exploration",
 		Rule: "case = 30 calls; command family fixed by the case index (+ - * / 3/8, % 1/8, range 1/8, math:abs/ceil/floor/round/round-to-even/trunc 1/8, math:min/max 1/8, math:pow 1/8). " +
 			"Arguments: 0..6 exact numbers drawn from classes {0, ±1, small ints, neighbours of ±2^63 / ±2^64 / 2^31 / 2^32 / 2^53 / sqrt(2^63), random ints up to 64 bits, big ints up to 200 bits, small rationals, rationals with 54..63-bit numerator and denominator, exact halves (also at the ±2^63 boundary), boundary±fraction, 200-bit rationals, reciprocals of boundaries, multiples of boundaries}, 30 % of the arguments derived from an earlier one (copy, negation, reciprocal, boundary−prev, boundary/prev) so that results cancel or land exactly on a boundary; each argument is passed as a canonical typed number or (35 %) as a documented string form (decimal, 0x/0o/0b, underscores, p/q not in lowest terms). " +
 			"14 % of + - * / calls (and some %, min/max, unary, pow calls) use 1..3 machine integers from {±2^63∓{0,1,2}, ±1, ±2, 2^31, 2^32, 2^62, 3037000499/500, random 63-bit} whose exact result leaves the machine range or lands on its ends (MinInt / -1, MinInt * -1, - MinInt, MaxInt + 1 …). 15 % of * and / calls mix in doubles (incl. ±Inf, NaN) around an exact 0 to test the documented exact-zero rules. pow: exponents in [-40,40] (huge exponents only for bases 0, ±1); range: 0..2000 outputs per call, with/without &step, one- and two-argument forms, wrong-signed and zero steps, machine-int overflow at the end of the int range. " +
